@@ -68,8 +68,15 @@ pub(crate) fn run() -> (Result<(), Error>, Option<StdinLogReader>) {
         let mut server;
         {
             let mut ptx = ProcessTransaction::new(&mut ps, TransactionBehavior::Immediate)?;
+            // Both phases of redo-unlocked run us with the REDO_TARGET of the
+            // script whose redo-ifchange started the out-of-band settle.  That
+            // script asked for the target being settled, not for the checksummed
+            // files below it: recording those as its own dependencies would make
+            // it rebuild whenever one of them changes, even when the target in
+            // between comes out with an unchanged checksum.
             let f = if !ptx.state().env().target().as_os_str().is_empty()
                 && !ptx.state().env().is_unlocked()
+                && !ptx.state().env().is_no_oob()
             {
                 let mut me = PathBuf::new();
                 me.push(ptx.state().env().startdir());
